@@ -112,6 +112,13 @@ func (r *RecBackend) ClientOf(conn interface{}) *broker.Client {
 	return r.byConn[conn]
 }
 
+// SetAckMode changes the ack mode (safe while the broker runs).
+func (r *RecBackend) SetAckMode(m string) {
+	r.mu.Lock()
+	r.AckMode = m
+	r.mu.Unlock()
+}
+
 // ReleaseAcks calls every withheld ack.
 func (r *RecBackend) ReleaseAcks() {
 	r.mu.Lock()
@@ -200,7 +207,10 @@ func (r *RecBackend) Publish(c *broker.Client, msg *packet.Message, ack broker.A
 			r.EL.Add(memconn.Event{Actor: "backend", Op: "ack", Topic: msg.Topic, Tag: tag(msg), Note: c.ID()})
 			ack()
 		}
-		switch r.AckMode {
+		r.mu.Lock()
+		mode := r.AckMode
+		r.mu.Unlock()
+		switch mode {
 		case "late":
 			wrapped = func() {
 				r.mu.Lock()
@@ -298,13 +308,19 @@ func (b *Broker) Dial(name string) (*peer.Peer, *memconn.Conn) {
 }
 
 // DialPlan is Dial with a fault plan on the broker end (set before Handle).
-func (b *Broker) DialPlan(name string, failAt int64, after bool) (*peer.Peer, *memconn.Conn) {
+// prep (may be nil) can install further hooks on the broker end.
+func (b *Broker) DialPlan(name string, failAt int64, after bool, prep func(*memconn.Conn)) (*peer.Peer, *memconn.Conn) {
 	b.mu.Lock()
 	b.n++
 	n := b.n
 	b.mu.Unlock()
 	brokerEnd, peerEnd := memconn.Pair(fmt.Sprintf("broker<%s#%d>", name, n), fmt.Sprintf("%s#%d", name, n), b.Log)
-	brokerEnd.FailAt, brokerEnd.FailAfter = failAt, after
+	if failAt > 0 {
+		brokerEnd.FailAt, brokerEnd.FailAfter = failAt, after
+	}
+	if prep != nil {
+		prep(brokerEnd)
+	}
 	b.Engine.Handle(brokerEnd)
 	return peer.New(name, peerEnd), brokerEnd
 }
